@@ -1,6 +1,7 @@
 package rules
 
 import (
+	"fmt"
 	"go/token"
 	"go/types"
 
@@ -33,6 +34,130 @@ func fromCall(v ssa.Value, name string, idx int) bool {
 		}
 	}
 	return false
+}
+
+// intRange describes an integer type as (signed, bits); the platform-sized int, uint and
+// uintptr are reported with bits == 0 ("word": 32 or 64 depending on the platform).
+func intRange(t types.Type) (signed bool, bits int, ok bool) {
+	b, isB := t.Underlying().(*types.Basic)
+	if !isB {
+		return false, 0, false
+	}
+	switch b.Kind() {
+	case types.Int8:
+		return true, 8, true
+	case types.Int16:
+		return true, 16, true
+	case types.Int32:
+		return true, 32, true
+	case types.Int:
+		return true, 0, true
+	case types.Int64:
+		return true, 64, true
+	case types.Uint8:
+		return false, 8, true
+	case types.Uint16:
+		return false, 16, true
+	case types.Uint32:
+		return false, 32, true
+	case types.Uint, types.Uintptr:
+		return false, 0, true
+	case types.Uint64:
+		return false, 64, true
+	}
+	return false, 0, false
+}
+
+// bitsLE: every b1-bit quantity fits in b2 bits on every platform (0 = word, 32..64 bits);
+// strict asks for at least one spare bit.
+func bitsLE(b1, b2 int, strict bool) bool {
+	lo := func(b int) int { // smallest possible width
+		if b == 0 {
+			return 32
+		}
+		return b
+	}
+	hi := func(b int) int { // largest possible width
+		if b == 0 {
+			return 64
+		}
+		return b
+	}
+	if b1 == 0 && b2 == 0 {
+		return !strict
+	}
+	if strict {
+		return hi(b1) < lo(b2)
+	}
+	return hi(b1) <= lo(b2)
+}
+
+// lossyParsedConv follows v back through conversions to the strconv call that produced it
+// and reports a conversion whose target type cannot represent every value the parse can
+// yield (given the call's constant bitSize). "" means value preserving.
+func lossyParsedConv(v ssa.Value) string {
+	var convs []*ssa.Convert
+	for {
+		switch x := v.(type) {
+		case *ssa.Convert:
+			convs = append(convs, x)
+			v = x.X
+			continue
+		case *ssa.ChangeType:
+			v = x.X
+			continue
+		}
+		break
+	}
+	e, ok := v.(*ssa.Extract)
+	if !ok {
+		return ""
+	}
+	call, ok := e.Tuple.(*ssa.Call)
+	if !ok {
+		return ""
+	}
+	var signed bool
+	bits := 0
+	switch name := eng.CalleeName(call.Common()); name {
+	case "strconv.Atoi":
+		signed = true
+	case "strconv.ParseInt", "strconv.ParseUint":
+		signed = name == "strconv.ParseInt"
+		if k, isC := eng.ConstInt(call.Call.Args[2]); !isC {
+			bits = 64
+		} else {
+			bits = int(k) // 0 = platform int
+		}
+	default:
+		return ""
+	}
+	// innermost conversion first
+	for i := len(convs) - 1; i >= 0; i-- {
+		ds, db, ok := intRange(convs[i].Type())
+		if !ok {
+			return "conversion to " + convs[i].Type().String()
+		}
+		fits := false
+		switch {
+		case signed == ds:
+			fits = bitsLE(bits, db, false)
+		case !signed && ds:
+			fits = bitsLE(bits, db, true)
+		}
+		if !fits {
+			sg, w := "unsigned", fmt.Sprintf("%d-bit", bits)
+			if signed {
+				sg = "signed"
+			}
+			if bits == 0 {
+				w = "word-sized"
+			}
+			return fmt.Sprintf("%s %s parse result converted to %s", sg, w, convs[i].Type().String())
+		}
+		signed, bits = ds, db
+	}
+	return ""
 }
 
 // sizeGate is a branch comparing a size-like value with config.SMTP.MaxMessageBytes.
@@ -134,7 +259,11 @@ func checkC06(c *Ctx) {
 				r.Bad("C06/SIZE/mail", cons, site, "over-limit edge can return at %s without a 5xx reply", p.InstrPos(ret))
 				continue
 			}
-			r.Ok("C06/SIZE/mail", cons, site, "strict `size > max`; over-limit edge replies 5xx and cannot reach MAIL; within-limit edge can")
+			if why := lossyParsedConv(g.sizeVal); why != "" {
+				r.Bad("C06/SIZE/mail", cons, site, "the declared SIZE is converted before the comparison in a way that can change its value (%s): a huge declared size wraps to a small or negative number and is accepted", why)
+				continue
+			}
+			r.Ok("C06/SIZE/mail", cons, site, "strict `size > max`; over-limit edge replies 5xx and cannot reach MAIL; within-limit edge can; the parsed value reaches the comparison without a narrowing or sign-changing conversion")
 		}
 	}
 	r.Floor("C06/SIZE/mail", "branches on parsed SIZE vs MaxMessageBytes", nMail, 1)
@@ -341,7 +470,12 @@ func checkC06(c *Ctx) {
 }
 
 // definitelyNonNilErr: package-level sentinel loads and fresh errors.
-func definitelyNonNilErr(v ssa.Value) bool {
+func definitelyNonNilErr(v ssa.Value) bool { return nonNilErrDepth(v, 0) }
+
+func nonNilErrDepth(v ssa.Value, depth int) bool {
+	if depth > 4 {
+		return false
+	}
 	switch x := v.(type) {
 	case *ssa.Const:
 		return !x.IsNil()
@@ -353,6 +487,18 @@ func definitelyNonNilErr(v ssa.Value) bool {
 	case *ssa.Call:
 		switch eng.CalleeName(x.Common()) {
 		case "errors.New", "fmt.Errorf":
+			return true
+		}
+		// a module helper that only ever returns freshly made errors
+		if rets, g := eng.ReturnedValues(x, 0); g != nil && len(rets) > 0 && g.Signature.Results().Len() == 1 {
+			for _, rv := range rets {
+				if c2, isCall := rv.(*ssa.Call); isCall && eng.StaticCallee(c2.Common()) == g {
+					return false
+				}
+				if !nonNilErrDepth(rv, depth+1) {
+					return false
+				}
+			}
 			return true
 		}
 	case *ssa.MakeInterface:
